@@ -44,6 +44,7 @@ type Rule struct {
 	// Rewrite maps the response body (correlation id onwards) to the body delivered instead.
 	Rewrite func(ri *ReqInfo, body []byte) []byte
 	Code    int16 // informational: error code a Rewrite injects
+	Always  bool  // the rule applies to every request of Key from now on (Nth is ignored)
 }
 
 func (r Rule) String() string {
@@ -271,7 +272,7 @@ func (n *Net) decide(ri *ReqInfo) Rule {
 	ri.Seq = len(n.reqs)
 	n.reqs = append(n.reqs, ri)
 	for _, r := range n.rules {
-		if (r.Key == ri.Key && r.Nth == cnt) || (r.Key == -1 && r.Nth == anyCnt) {
+		if (r.Key == ri.Key && (r.Always || r.Nth == cnt)) || (r.Key == -1 && r.Nth == anyCnt) {
 			ri.Act = r.Act
 			return r
 		}
